@@ -77,3 +77,58 @@ class CallLog:
         wrapper.__wrapped__ = orig
         setattr(mod, name, wrapper)
         return orig
+
+
+def build_huge(work, seed, nfields=132):
+    """single-level 3D plotfile whose first binary file is larger than 2 GiB: a 128^3 box of `nfields`
+    fields (all zero, written as a hole: nothing is allocated on disk) followed by three small boxes with
+    random data at byte offsets beyond 2**31, and one more box in a second file.
+    -> (path, [(lo, hi, array or None)], names): array None for the big box (all zeros)"""
+    import numpy as np
+    rng = np.random.default_rng(seed)
+    path = os.path.join(work, "plt_huge")
+    os.makedirs(os.path.join(path, "Level_0"))
+    names = [f"f{i}" for i in range(nfields)]
+    boxes = [((0, 0, 0), (127, 127, 127)), ((0, 0, 128), (127, 127, 129)), ((0, 0, 130), (127, 127, 131)),
+             ((0, 0, 132), (127, 127, 133)), ((0, 0, 134), (127, 127, 135))]
+    files = ["Cell_D_00000"] * 4 + ["Cell_D_00001"]
+    data, offsets = [], []
+    handles = {}
+    for (lo, hi), fn in zip(boxes, files):
+        fh = handles.get(fn) or handles.setdefault(fn, open(os.path.join(path, "Level_0", fn), "wb"))
+        offsets.append(fh.tell())
+        shp = tuple(h - l + 1 for l, h in zip(lo, hi))
+        fh.write((gen.FABHDR + "((%d,%d,%d) (%d,%d,%d) (0,0,0)) %d\n" % (lo + hi + (nfields,))).encode("ascii"))
+        if shp[2] == 128:
+            fh.seek(int(np.prod(shp)) * nfields * 8, 1)      # a hole: reads back as zeros
+            data.append(None)
+        else:
+            a = np.asfortranarray(rng.standard_normal(shp + (nfields,)))
+            fh.write(a.tobytes(order="F"))
+            data.append(a)
+    for fh in handles.values():
+        fh.truncate(fh.tell())
+        fh.close()
+    dx = 0.125
+    with open(os.path.join(path, "Level_0", "Cell_H"), "w") as ch:
+        ch.write("1\n1\n%d\n0\n(%d 0\n" % (nfields, len(boxes)))
+        for lo, hi in boxes:
+            ch.write("((%d,%d,%d) (%d,%d,%d) (0,0,0))\n" % (lo + hi))
+        ch.write(")\n%d\n" % len(boxes))
+        for fn, off in zip(files, offsets):
+            ch.write(f"FabOnDisk: {fn} {off}\n")
+        for tab in (np.min, np.max):
+            ch.write("\n%d,%d\n" % (len(boxes), nfields))
+            for a in data:
+                row = [0.0] * nfields if a is None else [float(tab(a[..., c])) for c in range(nfields)]
+                ch.write(",".join("%.16e" % v for v in row) + ",\n")
+    with open(os.path.join(path, "Header"), "w") as h:
+        h.write("HyperCLaw-V1.1\n%d\n" % nfields + "".join(n + "\n" for n in names))
+        h.write("3\n0.5\n0\n0.0 0.0 0.0\n%r %r %r\n\n" % (128 * dx, 128 * dx, 136 * dx))
+        h.write("((0,0,0) (127,127,135) (0,0,0))\n7\n%r %r %r\n0\n0\n" % (dx, dx, dx))
+        h.write("0 %d 0.5\n7\n" % len(boxes))
+        for lo, hi in boxes:
+            for d in range(3):
+                h.write("%r %r\n" % (lo[d] * dx, (hi[d] + 1) * dx))
+        h.write("Level_0/Cell\n")
+    return path, [(lo, hi, a) for (lo, hi), a in zip(boxes, data)], names, offsets
